@@ -851,4 +851,14 @@ def grade_replay(repo: Repo) -> RuleRun:
 grade_replay.rule_id = "C12.GRADE-REPLAY"
 
 
-RULES = [clear_complete, grade_idempotent, lockstep_filter, backport_map, delete_skip, assemble_walk, backport_owns_points, no_class_state, no_stale_lazy_cache, empty_patch, neighbour_untouched, exact_moves, grade_replay]
+def labels_private(repo: Repo) -> RuleRun:
+    """'... deleting an operation removes its block and nothing else': the projections it added to shared vertices go with it. Same rule as C05.LABELS-PRIVATE."""
+    from . import c05
+
+    return c05.labels_private(repo, PROP, "C12.LABELS-PRIVATE")
+
+
+labels_private.rule_id = "C12.LABELS-PRIVATE"
+
+
+RULES = [clear_complete, grade_idempotent, lockstep_filter, backport_map, delete_skip, assemble_walk, backport_owns_points, no_class_state, no_stale_lazy_cache, empty_patch, neighbour_untouched, exact_moves, grade_replay, labels_private]
